@@ -150,6 +150,8 @@ def standard(res, args, pid, prop_file, theorems, classes_note, partial=()):
     """the whole check for one scripted-port property"""
     tier, seed = res.tier, res.seed
     common.build_harness()
+    from lib import gen
+    gen.regenerate_all()
     common.coq_make()
     common.standard_proof_cov(res, prop_file, theorems)
     common.build_ocaml()
